@@ -231,3 +231,21 @@ Theorem machine_step_winds : forall s, reachable s ->
   windf (out (step_impl s)) = move_winds s (step_impl s) ++ windf (out s).
 Proof. exact machine_step_winds_lemma. Qed.
 Print Assumptions machine_step_winds.
+
+From ChibiV Require Import C06.Progress.
+
+(** PROGRESS (C06/Progress.v): for every script and every number of steps the machine built on the regenerated
+    travel-to-point! is never stuck, except in the modelled "stale C frame" state (status [Stuck 9], reachable only
+    through [CCall], the known findings c-callback-escape): every continuation index it dereferences (k_i slot, guard-k,
+    handler-k) is bound, travel-to-point! never runs out of fuel, and no frame ever receives a value of the wrong sort
+    (a number where guard's [((call/cc ...))] application expects a thunk, or a thunk where a number is expected). *)
+Theorem machine_progress : forall n e c,
+  Machine.st (Machine.run_impl n (Machine.init e)) = Machine.Stuck c -> c = Machine.STALE_C_FRAME.
+Proof. exact Progress.progress_impl_lemma. Qed.
+Print Assumptions machine_progress.
+
+(** the same for one more step from any state a run reaches: a reachable running state is never a dead end *)
+Theorem machine_step_never_stuck : forall n e c,
+  Machine.st (Machine.step_impl (Machine.run_impl n (Machine.init e))) = Machine.Stuck c -> c = Machine.STALE_C_FRAME.
+Proof. exact Progress.step_never_stuck_lemma. Qed.
+Print Assumptions machine_step_never_stuck.
